@@ -387,8 +387,8 @@ func freshSliceArg(c *Ctx, v ssa.Value) (bool, string) {
 	why := "built by " + fname(g) + " for this call"
 	ir.EachInstr(g, func(_ *ssa.BasicBlock, _ int, in ssa.Instruction) {
 		r, isRet := in.(*ssa.Return)
-		if !isRet || len(ir.Results(r)) == 0 {
-			return
+		if !isRet || len(ir.Results(r)) == 0 || r.Block() == g.Recover {
+			return // (the recover block re-returns what a return statement stored before a deferred call panicked)
 		}
 		if !sliceMadeHere(unspill(ir.Results(r)[0]), 0) {
 			ok = false
